@@ -50,7 +50,9 @@ class MInt:
 
 
 class Evaluator:
-    def __init__(self, run, st, old_mem, env, phase="post", assigned=None):
+    def __init__(self, run, st, old_mem, env, phase="post", assigned=None, assume=False):
+        self.assume = assume
+        self.ringmode = run.mode == "ring"
         self.run = run
         self.st = st
         self.old_mem = old_mem
@@ -61,6 +63,7 @@ class Evaluator:
         self.prog = run.prog
         self.C = run.V.contracts
         self.bound = {}
+        self.havocked = set()
 
     # ---------------------------------------------------------- public
     def bool(self, ast):
@@ -73,6 +76,12 @@ class Evaluator:
         return self.as_int(self.ev(ast, False))
 
     def as_int(self, v):
+        if self.ringmode:
+            from .ring import RCanon, RInt
+            if isinstance(v, RCanon):
+                return self.cv(v.poly)
+            if isinstance(v, RInt):
+                raise VerifError("field value used as an integer (write `lv(e) % P` for the canonical representative)")
         if isinstance(v, MInt):
             return self.dom.to_spec(v.v, v.w, v.s)
         if isinstance(v, Ref):
@@ -111,7 +120,7 @@ class Evaluator:
         if t is None:
             return ref
         k = self.prog.kind(t)
-        if k in ("struct", "array"):
+        if k in ("struct", "array", "opaque"):
             return ref
         v = self.read(ptr.obj, ptr.path, t, ref.old)
         ii = self.prog.int_info(t)
@@ -158,6 +167,10 @@ class Evaluator:
             v = self.ev(ast[2], old)
             if isinstance(v, int) and not isinstance(v, bool):
                 return -v
+            if self.ringmode:
+                from .ring import RInt
+                if isinstance(v, RInt):
+                    return RInt(-v.poly)
             return self.dom.s_neg(self.as_int(v))
         if k == "bin":
             return self.binary(ast, old)
@@ -268,17 +281,38 @@ class Evaluator:
     def binary(self, ast, old):
         _, op, a, b = ast
         if op in ("&&", "||", "==>", "<==>"):
-            x = self.bool_of(self.ev(a, old))
+            saved = self.assume
+            if op != "&&":
+                self.assume = False
+            try:
+                x = self.bool_of(self.ev(a, old))
+            finally:
+                self.assume = saved
             if op == "&&" and x is False:
                 return False
             if op == "||" and x is True:
                 return True
             if op == "==>" and x is False:
                 return True
-            y = self.bool_of(self.ev(b, old))
+            if op == "==>" and x is not True and saved:
+                tr = self.st.truth(x)
+                if tr is False:
+                    return True
+                if tr is True:
+                    x = True
+            if not (op == "&&" or (op == "==>" and x is True)):
+                self.assume = False
+            try:
+                y = self.bool_of(self.ev(b, old))
+            finally:
+                self.assume = saved
             return {"&&": mk_and, "||": mk_or, "==>": mk_implies, "<==>": mk_iff}[op](x, y)
         x = self.ev(a, old)
         y = self.ev(b, old)
+        if self.ringmode:
+            from .ring import RInt, RCanon
+            if isinstance(x, (RInt, RCanon)) or isinstance(y, (RInt, RCanon)):
+                return self.ring_binary(op, x, y)
         if op in ("==", "!="):
             r = self.equal(x, y)
             return r if op == "==" else mk_not(r)
@@ -340,6 +374,8 @@ class Evaluator:
 
     # ---------------------------------------------------------- builtin spec functions
     def call(self, name, args, old):
+        if self.ringmode and name in RING_BUILTINS:
+            return self.ring_call(name, args, old)
         if name in self.C.defines:
             params, body = self.C.defines[name]
             if len(params) != len(args):
@@ -357,6 +393,13 @@ class Evaluator:
                     else:
                         self.bound[p] = v
         if name == "cong":
+            if self.ringmode:
+                from .ring import RInt, RCanon, req
+                xa, xb = self.ev(args[0], old), self.ev(args[1], old)
+                if isinstance(xa, RInt) or isinstance(xb, RInt):
+                    return self.ring_cong(xa, xb)
+                a, b, m = self.as_int(xa), self.as_int(xb), self.as_int(self.ev(args[2], old))
+                return self.dom.s_cong(self.st, a, b, m)
             a, b, m = [self.as_int(self.ev(x, old)) for x in args]
             return self.dom.s_cong(self.st, a, b, m)
         if name == "ite":
@@ -499,3 +542,220 @@ class Evaluator:
         for i in range(n):
             out.extend(self.run.cells_under(sl.obj, sl.path + (off + i,)))
         return out
+
+
+# ================================================================== ring mode (tier F)
+
+RING_BUILTINS = {"lv", "inv", "tight", "canon", "eqlimbs", "iszero", "isone", "rawzero", "fpow", "finv"}
+
+
+def _ring_methods():
+    from .ring import RVal, RPoly, RInt, RCanon, req, P25519, to_rpoly
+
+    def rv(self, ref):
+        if not isinstance(ref, Ref):
+            raise VerifError("field element reference expected, got %r" % (ref,))
+        t = self.run.loc_type(ref.ptr.obj, ref.ptr.path)
+        if self.prog.kind(t) == "ptr":
+            ref = self.deref(ref)
+            t = self.run.loc_type(ref.ptr.obj, ref.ptr.path)
+        if self.prog.kind(t) != "opaque":
+            raise VerifError("not a field element: %s" % t)
+        v = self.read(ref.ptr.obj, ref.ptr.path, t, ref.old)
+        return v, ref
+
+    def setcell(self, ref, val):
+        if ref.old:
+            raise VerifError("cannot constrain an old() element by assignment")
+        self.st.mem[(ref.ptr.obj, ref.ptr.path)] = val
+
+    def cv(self, poly):
+        """canonical integer representative in [0,P) of a ring value, as an LIA atom"""
+        st = self.st
+        key = ("cv", poly)
+        if key in st.cache:
+            return st.cache[key]
+        if poly.is_const():
+            r = Poly.const(poly.const_val() % P25519)
+            st.cache[key] = r
+            return r
+        n = self.dom.new_name("cv")
+        st.decl[n] = "Int"
+        st.bounds[n] = (0, P25519 - 1)
+        a = Poly.atom(n)
+        st.hyps.append(("<=", Poly.const(0), a))
+        st.hyps.append(("<=", a, Poly.const(P25519 - 1)))
+        for k2, other in list(st.cache.items()):
+            if isinstance(k2, tuple) and k2 and k2[0] == "cv":
+                e = req(poly - k2[1])
+                eqf = ("=", a, other)
+                st.hyps.append(mk_iff(e, eqf))
+        st.cache[key] = a
+        return a
+
+    def ring_of(self, v):
+        if isinstance(v, RInt):
+            return v.poly
+        if isinstance(v, int) and not isinstance(v, bool):
+            return RPoly.const(v)
+        if isinstance(v, Poly) and v.is_const():
+            return RPoly.const(v.const_val())
+        return None
+
+    def ring_cong(self, xa, xb):
+        pa, pb = self.ring_of(xa), self.ring_of(xb)
+        if pa is not None and pb is not None:
+            return req(pa - pb)
+        # one side is a plain integer expression n: n == canonical(value) (mod P)
+        ring, other = (pa, xb) if pa is not None else (pb, xa)
+        n = self.as_int(other)
+        return self.dom.s_cong(self.st, n, self.cv(ring), Poly.const(P25519))
+
+    def ring_binary(self, op, x, y):
+        if op in ("+", "-", "*"):
+            pa, pb = self.ring_of(x), self.ring_of(y)
+            if pa is None or pb is None:
+                raise VerifError("field value mixed with a non-constant integer in %s" % op)
+            return RInt(pa + pb if op == "+" else pa - pb if op == "-" else pa * pb)
+        if op == "^":
+            if not isinstance(y, int):
+                raise VerifError("exponent must be a constant")
+            return RInt(self.ring_of(x).pow(y))
+        if op == "%":
+            if isinstance(x, RInt) and isinstance(y, int) and y == P25519:
+                return RCanon(x.poly)
+            if isinstance(x, RCanon):
+                return self.dom.s_bin(self.st, "%", self.cv(x.poly), self.as_int(y))
+            raise VerifError("unsupported %% on a field value")
+        if op in ("==", "!="):
+            if isinstance(x, RCanon) and isinstance(y, RCanon):
+                r = req(x.poly - y.poly)
+            elif isinstance(x, RInt) and isinstance(y, RInt):
+                r = req(x.poly - y.poly)
+            elif isinstance(x, RInt) or isinstance(y, RInt):
+                ri, other = (x, y) if isinstance(x, RInt) else (y, x)
+                po = self.ring_of(other)
+                if po is not None:
+                    r = req(ri.poly - po)
+                else:
+                    # lv(e) == n for an integer expression n: the element holds the image of n
+                    r = self.ring_cong(ri, other)
+            else:
+                a, b = self.as_int(x), self.as_int(y)
+                r = self.dom.s_cmp("==", a, b)
+            return r if op == "==" else mk_not(r)
+        if op in ("<", "<=", ">", ">="):
+            return self.dom.s_cmp(op, self.as_int(x), self.as_int(y))
+        if op in ("/", ">>", "&"):
+            return self.dom.s_bin(self.st, op, self.as_int(x), self.as_int(y))
+        raise VerifError("operator %s on field values" % op)
+
+    def fn_atom(self, kind, poly):
+        """opaque function of a ring value: inverse (x^(p-2)) or x^((p-5)/8), with its defining axioms"""
+        st = self.st
+        key = ("fn", kind, poly)
+        if key in st.cache:
+            return st.cache[key]
+        a = self.dom.new_name(kind).replace("!", "_")
+        st.elem_atoms[a] = None
+        w = RPoly.atom(a)
+        if kind == "finv":
+            # M2 (Fermat): x != 0 => x * x^(p-2) = 1 ;  0^(p-2) = 0
+            st.hyps.append(mk_or(req(poly * w - 1), req(poly)))
+            st.hyps.append(mk_implies(req(poly), req(w)))
+            st.hyps.append(mk_implies(req(w), req(poly)))
+            self.run.V.math_used.add("M2 (Fermat: x^(p-2) is the inverse, 0 -> 0)")
+        elif kind == "p58":
+            # M6: for p = 5 mod 8, c = x^((p-1)/4) = w^2 * x  is 0 (iff x = 0) or a fourth root of unity
+            i_val = self.sqrt_m1()
+            c = w * w * poly
+            st.hyps.append(mk_or(mk_and(req(poly), req(w)), req(c - 1), req(c + 1), req(c - i_val), req(c + i_val)))
+            st.hyps.append(mk_implies(req(poly), req(w)))
+            self.run.V.math_used.add("M6 (x^((p-1)/4) is 0 or a fourth root of unity for p = 5 mod 8)")
+        st.cache[key] = w
+        return w
+
+    def sqrt_m1(self):
+        g = self.run.V.find_global(self.run, "sqrtM1")
+        if g is None:
+            raise VerifError("sqrtM1 is not visible here")
+        p = self.run.V.global_ptr(self.run, self.st, g)
+        v, _ = self.rv(self.deref(Ref(p, False)))
+        return v.poly
+
+    def ring_call(self, name, args, old):
+        if name == "lv":
+            v, _ = self.rv(self.ev(args[0], old))
+            return RInt(v.poly)
+        if name in ("inv", "tight", "canon"):
+            v, ref = self.rv(self.ev(args[0], old))
+            lvl = {"inv": 1, "tight": 2, "canon": 3}[name]
+            if self.assume:
+                if lvl <= 2 and v.inv < lvl and not ref.old:
+                    self.setcell(ref, RVal(v.poly, lvl, v.raw))
+                elif lvl <= 2 and v.inv < lvl and ref.old:
+                    # entry-state flag (requires at function entry): both memories hold the same RVal object
+                    nv = RVal(v.poly, lvl, v.raw)
+                    self.old_mem[(ref.ptr.obj, ref.ptr.path)] = nv
+                    if self.st.mem.get((ref.ptr.obj, ref.ptr.path)) is v:
+                        self.st.mem[(ref.ptr.obj, ref.ptr.path)] = nv
+                return True
+            if lvl == 3:
+                raise Unsupported("canon() cannot be established in ring mode")
+            return v.inv >= lvl
+        if name == "eqlimbs":
+            x, xr = self.rv(self.ev(args[0], old))
+            y, yr = self.rv(self.ev(args[1], old))
+            if self.assume and not xr.old and (xr.ptr.obj, xr.ptr.path) in self.havocked:
+                self.setcell(xr, y)
+                self.st.pending = {a: k for a, k in self.st.pending.items() if k != (xr.ptr.obj, xr.ptr.path)}
+                return True
+            return self.run.limbs_equal(self.st, x, y)
+        if name in ("iszero", "isone"):
+            v, ref = self.rv(self.ev(args[0], old))
+            const = RVal(RPoly.const(0 if name == "iszero" else 1), 2, "ZERO" if name == "iszero" else "ONE")
+            if self.assume and not ref.old and (ref.ptr.obj, ref.ptr.path) in self.havocked:
+                self.setcell(ref, const)
+                self.st.pending = {a: k for a, k in self.st.pending.items() if k != (ref.ptr.obj, ref.ptr.path)}
+                return True
+            if self.assume:
+                # a fact about an existing element (global invariant): value and limbs
+                self.st.hyps.append(req(v.poly - const.poly))
+                nv = RVal(const.poly, 2, const.raw)
+                for mem in (self.st.mem, self.old_mem):
+                    if mem.get((ref.ptr.obj, ref.ptr.path)) is v:
+                        mem[(ref.ptr.obj, ref.ptr.path)] = nv
+                return True
+            return self.run.limbs_equal(self.st, v, const)
+        if name == "rawzero":
+            v, ref = self.rv(self.ev(args[0], old))
+            return self.run.limbs_equal(self.st, v, RVal(RPoly.const(0), 2, "ZERO"))
+        if name in ("fpow", "finv"):
+            x = self.ev(args[0], old)
+            px = self.ring_of(x)
+            if px is None:
+                raise VerifError("fpow of a non-field value")
+            e = P25519 - 2 if name == "finv" else self.conc(self.ev(args[1], old))
+            single = len(px.t) == 1 and list(px.t.items())[0][1] == 1 and len(list(px.t)[0]) == 1 and list(px.t)[0][0][1] == 1
+            kind0 = "finv" if e == P25519 - 2 else "p58" if e == (P25519 - 5) // 8 else None
+            if not self.assume and kind0 and ("fn", kind0, px) in self.st.cache:
+                return RInt(self.st.cache[("fn", kind0, px)])
+            if not self.assume:
+                # proving a body against its exponent contract: the argument is an input atom
+                if single or px.is_const():
+                    return RInt(px.pow(e)) if single else RInt(RPoly.const(pow(px.const_val(), e, P25519)))
+                raise Unsupported("fpow of a compound value as a proof goal")
+            if px.is_const():
+                return RInt(RPoly.const(pow(px.const_val(), e, P25519)))
+            if e == P25519 - 2:
+                return RInt(self.fn_atom("finv", px))
+            if e == (P25519 - 5) // 8:
+                return RInt(self.fn_atom("p58", px))
+            raise Unsupported("fpow with exponent %d of a compound value" % e)
+        raise VerifError("ring builtin %s" % name)
+
+    for f in (rv, setcell, cv, ring_of, ring_cong, ring_binary, fn_atom, sqrt_m1, ring_call):
+        setattr(Evaluator, f.__name__, f)
+
+
+_ring_methods()
